@@ -168,6 +168,17 @@ def tweak_decl(rng, cls, vg):
         if k == "string" and d.get("pattern") is not None and rng.random() < 0.5:
             d["pattern"] = rng.choice(["^[a-z]+$", "^x", "^.{2,3}$", "^a|b"])
     _walk(cls["fields"], fn)
+    # Optional[X] = AnyOf[X, None] on fields that are not required; the neighbouring shapes that are not Optional
+    for pair in cls["fields"]:
+        n, fd = pair
+        if n not in cls["required"] and fd["k"] not in ("noneF", "anything") and rng.random() < 0.3:
+            r = rng.random()
+            if r < 0.8:
+                pair[1] = {"k": "anyOf", "fields": [fd, {"k": "noneF"}]}
+            elif r < 0.9:
+                pair[1] = {"k": "anyOf", "fields": [fd, {"k": "boolean"}, {"k": "noneF"}]}
+            else:
+                pair[1] = {"k": "anyOf", "fields": [{"k": "noneF"}, fd]}
     # a nested class used twice (two $refs to one definition), sometimes inside an array
     nested = [fd for _, fd in cls["fields"] if fd.get("k") == "struct" and not fd.get("inline")]
     free = [n for n in ["g", "h7", "k_k"] if n not in [x for x, _ in cls["fields"]]]
@@ -563,8 +574,12 @@ def inexact_features(d, acc):
     return acc
 
 
-def admit_key(err):
+def admit_key(err, cls=None):
     """stable name of the phenomenon behind a validation error of a serialized valid instance"""
+    if cls is not None and err.get("path"):
+        fd = dict((n, f) for n, f in cls["fields"]).get(err["path"][0])
+        if fd is not None and "nested-field-wrapper" in inexact_features(fd, set()):
+            return "nested-field-wrapper"
     if err.get("branches"):
         keys = {admit_key(b) for b in err["branches"]}
         if len(keys) == 1 and not (keys & {"type", "enum", "required"}):
@@ -594,7 +609,7 @@ def _admit_key(err):
         return "sign-only-float-bound"
     if v == "maximum" and err["value"] == -0.000001:
         return "sign-only-float-bound"
-    if v == "maximum" and sch.get("exclusiveMaximum") and err["value"] == 0 and inst == 0:
+    if v == "maximum" and sch.get("exclusiveMaximum") and err["value"] in (0, -1, -0.000001) and inst == err["value"]:
         return "exclusiveMaximum-without-maximum"
     if v == "additionalItems" and isinstance(sch.get("items"), list) and len(sch["items"]) == 1:
         return "homogeneous-tuple"
@@ -624,7 +639,7 @@ def tags(case, impl, model):
         out.append("field-wrapper")
     for r in impl.get("insts", []):
         if "valid" in r:
-            out.append("instance:" + ("valid" if r["valid"] else "rejected:" + admit_key(r["error"])))
+            out.append("instance:" + ("valid" if r["valid"] else "rejected:" + admit_key(r["error"], case["cls"])))
     nv = sum(1 for r in impl.get("bdocs", []) if r.get("valid"))
     out.append(f"boundary-docs-admitted:{min(nv, 9)}")
     for fd in {fd["k"] for _, fd in case["cls"]["fields"]}:
@@ -715,7 +730,7 @@ def oracle(case, impl, model):
                           "schema_admits_partial covers this (class, instance), yet the real schema rejects the real "
                           f"serialization: {r['error']['msg']}; doc " + json.dumps(r["doc"])[:200]))
         if r.get("valid") is False and model.get("refsFaithful") is not False:
-            fails.append((f"admits:{admit_key(r['error'])}",
+            fails.append((f"admits:{admit_key(r['error'], case['cls'])}",
                           f"serialization of a valid instance is rejected by the schema: {r['error']['msg']} at {'/'.join(r['error']['path'])}; doc " + json.dumps(r["doc"])[:200]))
         if "valid_crash" in r:
             fails.append(("validator-crash", "Draft4Validator raised on the emitted schema: " + r["valid_crash"]))
@@ -730,6 +745,13 @@ def oracle(case, impl, model):
                     f1 = culprit_field(case["cls"], r["deser"].get("msg", ""))
                     suspects = [f1] if f1 is not None else [fd for _, fd in case["cls"]["fields"]]
                 ff = inexact_features(suspects, set())
+                # a positional array that is not shorter than its item list is not the known phenomenon
+                if "positional-shorter" in ff and len(suspects) == 1 and suspects[0]["k"] in ("tuplePos", "seqPos") \
+                        and isinstance(dj, dict) and "m" in dj:
+                    val = dict((k, v) for k, v in dj["m"] if isinstance(k, str)).get((ck or [None])[0])
+                    if isinstance(val, dict) and "l" in val and len(val["l"]) >= len(suspects[0]["items"]):
+                        ff.discard("positional-shorter")
+                        ff |= inexact_features(suspects[0]["items"], set())
                 ff = [x for x in FEATURE_PRIORITY if x in ff][:1]
                 why = ff[0] if ff else "unexplained:" + "+".join(sorted({f["k"] for f in suspects}))[:40]
                 fails.append((f"exact:{why}",
